@@ -11,6 +11,7 @@ import (
 
 	"golang.org/x/tools/go/callgraph"
 	"golang.org/x/tools/go/cfg"
+	"golang.org/x/tools/go/packages"
 	"golang.org/x/tools/go/ssa"
 
 	"j5verif/checker/core"
@@ -107,7 +108,7 @@ func Termination(r *core.Run, sc *Scope, tc TermConfig) {
 	probes := probeFunctions(sc, ci)
 	guard := map[*ScopeFunc]bool{}
 	for _, f := range sc.Funcs {
-		if _, ok := visitedGuard(f.Pkg.TypesInfo, f.Body); ok {
+		if _, ok := visitedGuard(f.Pkg, f.Body); ok {
 			guard[f] = true
 		}
 	}
@@ -953,7 +954,7 @@ func probeFunctions(sc *Scope, ci *consumeInfo) map[*ssa.Function]bool {
 		if !lastBool(f.SSA) {
 			continue
 		}
-		if _, ok := visitedGuard(f.Pkg.TypesInfo, f.Body); !ok {
+		if _, ok := visitedGuard(f.Pkg, f.Body); !ok {
 			continue
 		}
 		// the early return must report true and the insertion path false
@@ -1050,9 +1051,25 @@ func underFreshBranch(site ssa.Instruction, probes map[*ssa.Function]bool, ci *c
 
 // visitedGuard: membership test on a map with early return plus insertion
 // into the same map somewhere in the body (see props/c15.go for the forms).
-func visitedGuard(info *types.Info, body ast.Node) (string, bool) {
+func visitedGuard(pk *packages.Package, body ast.Node) (string, bool) {
+	info := pk.TypesInfo
 	tested := map[string]bool{}
 	stored := map[string]bool{}
+	isMap := func(e ast.Expr) bool {
+		t := info.TypeOf(e)
+		if t == nil {
+			return false
+		}
+		_, ok := t.Underlying().(*types.Map)
+		return ok
+	}
+	endsInReturn := func(l []ast.Stmt) bool {
+		if len(l) == 0 {
+			return false
+		}
+		_, ok := l[len(l)-1].(*ast.ReturnStmt)
+		return ok
+	}
 	ast.Inspect(body, func(n ast.Node) bool {
 		var list []ast.Stmt
 		switch b := n.(type) {
@@ -1067,15 +1084,20 @@ func visitedGuard(info *types.Info, body ast.Node) (string, bool) {
 				continue
 			}
 			ix, ok := core.Unparen(as.Rhs[0]).(*ast.IndexExpr)
-			if !ok {
-				continue
-			}
-			if _, isMap := info.TypeOf(ix.X).Underlying().(*types.Map); !isMap {
+			if !ok || !isMap(ix.X) {
 				continue
 			}
 			ifs, ok := list[i+1].(*ast.IfStmt)
-			if ok && core.ExprStr(ifs.Cond) == core.ExprStr(as.Lhs[1]) && len(ifs.Body.List) > 0 {
-				if _, isRet := ifs.Body.List[len(ifs.Body.List)-1].(*ast.ReturnStmt); isRet {
+			if !ok {
+				continue
+			}
+			if core.ExprStr(ifs.Cond) == core.ExprStr(as.Lhs[1]) && endsInReturn(ifs.Body.List) {
+				tested[core.ExprStr(ix.X)] = true
+			}
+			// the same test the other way round: `if !found { …; return }` directly followed by
+			// the return for a key that is present
+			if u, isNot := core.Unparen(ifs.Cond).(*ast.UnaryExpr); isNot && u.Op == token.NOT && core.ExprStr(u.X) == core.ExprStr(as.Lhs[1]) && ifs.Else == nil && endsInReturn(ifs.Body.List) && i+2 < len(list) {
+				if _, isRet := list[i+2].(*ast.ReturnStmt); isRet {
 					tested[core.ExprStr(ix.X)] = true
 				}
 			}
@@ -1088,20 +1110,21 @@ func visitedGuard(info *types.Info, body ast.Node) (string, bool) {
 			} else {
 				ix, _ = core.Unparen(x.Cond).(*ast.IndexExpr)
 			}
-			if ix != nil {
-				if _, isMap := info.TypeOf(ix.X).Underlying().(*types.Map); isMap && len(x.Body.List) > 0 {
-					if _, isRet := x.Body.List[len(x.Body.List)-1].(*ast.ReturnStmt); isRet {
-						tested[core.ExprStr(ix.X)] = true
-					}
-				}
+			if ix != nil && isMap(ix.X) && endsInReturn(x.Body.List) {
+				tested[core.ExprStr(ix.X)] = true
 			}
 		case *ast.AssignStmt:
 			for _, l := range x.Lhs {
-				if ix, ok := l.(*ast.IndexExpr); ok {
-					if _, isMap := info.TypeOf(ix.X).Underlying().(*types.Map); isMap {
-						stored[core.ExprStr(ix.X)] = true
-					}
+				if ix, ok := l.(*ast.IndexExpr); ok && isMap(ix.X) {
+					stored[core.ExprStr(ix.X)] = true
 				}
+			}
+		case *ast.CallExpr:
+			// the insertion made by a helper of the same package on its receiver or a
+			// parameter: `p.declare(k)` with `func (x *T) declare(k) { x.m[k] = … }` stores
+			// into p.m
+			for _, m := range helperMapStores(pk, x) {
+				stored[m] = true
 			}
 		}
 		return true
@@ -1112,6 +1135,75 @@ func visitedGuard(info *types.Info, body ast.Node) (string, bool) {
 		}
 	}
 	return "", false
+}
+
+// helperMapStores lists the maps a same-package callee stores into, spelled in the caller's
+// terms: the callee's receiver and parameters are replaced by the call's receiver and
+// arguments. Stores into anything else of the callee are not reported.
+func helperMapStores(pk *packages.Package, call *ast.CallExpr) []string {
+	info := pk.TypesInfo
+	fn := core.CalleeFunc(info, call)
+	if fn == nil || fn.Pkg() != pk.Types {
+		return nil
+	}
+	fd := core.DeclOf(pk, fn.Origin())
+	if fd == nil || fd.Body == nil {
+		return nil
+	}
+	subst := map[types.Object]string{}
+	if fd.Recv != nil && len(fd.Recv.List) == 1 && len(fd.Recv.List[0].Names) == 1 {
+		if sel, ok := call.Fun.(*ast.SelectorExpr); ok {
+			subst[info.Defs[fd.Recv.List[0].Names[0]]] = core.ExprStr(sel.X)
+		}
+	}
+	i := 0
+	for _, fl := range fd.Type.Params.List {
+		for _, nm := range fl.Names {
+			if i < len(call.Args) {
+				subst[info.Defs[nm]] = core.ExprStr(call.Args[i])
+			}
+			i++
+		}
+	}
+	var out []string
+	ast.Inspect(fd.Body, func(n ast.Node) bool {
+		as, ok := n.(*ast.AssignStmt)
+		if !ok {
+			return true
+		}
+		for _, l := range as.Lhs {
+			ix, ok := l.(*ast.IndexExpr)
+			if !ok {
+				continue
+			}
+			if t := info.TypeOf(ix.X); t == nil {
+				continue
+			} else if _, isMap := t.Underlying().(*types.Map); !isMap {
+				continue
+			}
+			// root identifier of the map expression
+			root := ix.X
+			for {
+				if sel, ok := root.(*ast.SelectorExpr); ok {
+					root = sel.X
+					continue
+				}
+				break
+			}
+			id, ok := root.(*ast.Ident)
+			if !ok {
+				continue
+			}
+			rep, ok := subst[info.Uses[id]]
+			if !ok {
+				continue
+			}
+			full := core.ExprStr(ix.X)
+			out = append(out, rep+full[len(id.Name):])
+		}
+		return true
+	})
+	return out
 }
 
 // loopTerminates recognises the progress idioms.
